@@ -354,8 +354,10 @@ def main():
 
 def fact_matters(pid, fact):
     """does property pid depend on the extracted fact? (through the structures its suites exercise)"""
-    from props import FACT_USERS
+    from props import FACT_USERS, GUARD_INDEPENDENT
 
+    if fact.endswith("Cmp") and pid in GUARD_INDEPENDENT:
+        return False
     suites = {name for name, _ in PROPS[pid]["suites"]}
     for prefix, users in FACT_USERS.items():
         if fact.startswith(prefix):
@@ -402,7 +404,7 @@ def guess_broken_theorems(pid, log):
                 srcs[mod] = fh.read().split("\n")
         except OSError:
             pass
-    for m in re.finditer(r"Properties/(%s\w*)\.lean:(\d+):\d+" % pid, log):
+    for m in re.finditer(r"error: \S*Properties/(%s\w*)\.lean:(\d+):\d+" % pid, log):
         src = srcs.get(m.group(1))
         if src is None:
             continue
@@ -414,7 +416,7 @@ def guess_broken_theorems(pid, log):
                     names.append(mm.group(1))
                 break
     if not names:
-        for m in re.finditer(r"PyProb/(\S+?)\.lean:\d+:\d+", log):
+        for m in re.finditer(r"error: \S*PyProb/(\S+?)\.lean:\d+:\d+", log):
             if m.group(1) not in names:
                 names.append(m.group(1))
     return names[:8]
